@@ -134,7 +134,7 @@ def core_models(tier, d):
 
     jobs = [
         # (1) N2 complete, all invariants, witness behaviours per transition class
-        ("n2_classes", "MC_GcHeap", hc("classes", n_obj=2, many=True), 3, None, 1500),
+        ("n2_classes", "MC_GcHeap", hc("classes", n_obj=2, many=True), 3, None, 9000),
         # (2) every object kind / storage path of C06, behaviours of bounded length
         ("n2_kinds", "MC_GcHeap", hc("classes", n_obj=2, kinds=ALLK, max_ops=5 if quick else 6, barrier_only=True, vias=VIAS),
          2, None, 12000),
@@ -154,22 +154,22 @@ def core_models(tier, d):
         ("n2_pairs", "MC_GcHeap", hc("pairs", n_obj=2, many=True, max_ops=5 if quick else 6), 1, None, 12000),
         # (4c) a RefLock frozen by a leaked RefMut (safe code): tracing it must panic, never skip it
         ("n2_leak", "MC_GcHeap", hc("pairs", n_obj=2, leak=True, finalize=False, drop=False, debt_calls=False, budgets=(1,),
-                                    grans=("P1",), max_ops=5 if quick else 7), 1, None, 3000),
+                                    grans=("P1",), max_ops=5 if quick else 7), 1, None, 9000),
         # (4d) a user destructor that panics while the collector (or the arena's drop) runs it; the collection is
         #      resumed afterwards: nothing is destructed twice, is_dropped stays exact
         ("n2_dfaults", "MC_GcHeap", hc("classes", n_obj=2, dfault_ats=(0, 1), finalize=False, grans=("P1",),
-                                       max_ops=6 if quick else 8), 2, None, 3000),
+                                       max_ops=6 if quick else 8), 2, None, 9000),
         # (4e) three objects, DEEP: exhaustive exploration (pair witnesses) of what can follow a scripted prelude that
         #      builds a heap breadth-first search cannot afford to reach (a dead shell weakly held by one of two rooted
         #      nodes; weakly held garbage one cycle earlier; a chain that survived a cycle)
         ("n3_shell", "MC_GcHeap", hc("pairs", n_obj=3, finalize=False, drop=False, budgets=(1,), grans=("P1",),
-                                     prelude="shell", max_ops=6 + (3 if quick else 4)), 1, None, 3000),
+                                     prelude="shell", max_ops=6 + (3 if quick else 4)), 1, None, 9000),
         ("n3_weakgarbage", "MC_GcHeap", hc("pairs", n_obj=3, finalize=False, drop=False, budgets=(1,), grans=("P1",),
                                            prelude="weakgarbage", max_ops=6 + 3), 1, None, 6000),
         ("n3_weakchain", "MC_GcHeap", hc("pairs", n_obj=3, finalize=True, drop=False, budgets=(1,), grans=("P1",), debt_calls=False,
-                                         prelude="weakchain", max_ops=5 + (2 if quick else 3)), 1, None, 3000),
+                                         prelude="weakchain", max_ops=5 + (2 if quick else 3)), 1, None, 9000),
         ("n3_mixed", "MC_GcHeap", hc("pairs", n_obj=3, finalize=False, drop=True, budgets=(1, 2), grans=("P1",),
-                                     prelude="mixed", max_ops=5 + (2 if quick else 3)), 1, None, 3000),
+                                     prelude="mixed", max_ops=5 + (2 if quick else 3)), 1, None, 9000),
         ("n3_chain", "MC_GcHeap", hc("pairs", n_obj=3, finalize=False, drop=False, budgets=(1,), grans=("P1",),
                                      prelude="chain", max_ops=4 + (2 if quick else 3)), 1, None, 6000),
         # (5) two arenas on one thread (C20): interleavings of a reduced menu
@@ -610,7 +610,7 @@ def pacing_engine(tier, d):
 
 
 PACING_MUST_HIT = {
-    "C09": ["C09.r1", "C09.r2", "C09.r2m", "C09.r3", "C09.r4", "C09.r5", "C09.r5b"],
+    "C09": ["C09.r1", "C09.r2", "C09.r2m", "C09.r3", "C09.r4", "C09.r5", "C09.r5b", "C09.r5i"],
     "C10": ["C10.r1", "C10.r2", "C10.r3", "C10.r4", "C10.r5", "C10.r6"],
 }
 PACING_INVS = {
